@@ -97,9 +97,15 @@ package store
 //@   ensures err == nil ==> $ValidOK || $CacheDropped
 //@   ensures err != nil ==> $RmErr || $CreateErr
 
+// C07-e (known finding, see /verif/KNOWN_FINDINGS.json): the Q4 file is written in place, under its final name.
+// That is safe only while nothing makes the block reachable: if an ODS-only put of the same height completed
+// earlier, its height link is there already, and every crash point of the Q4 write leaves a reachable block with
+// a partial Q4 file. $HeightReachable: a height link to this block exists when the put starts. Nothing in the
+// store establishes its negation before the files are created.
 //@ func (*Store).createODSQ4File
 //@   property C07 C15
 //@   noframe
+//@   callpre file.CreateODSQ4: !$HeightReachable
 //@   havoc $Complete $CacheDropped $LinkGone $FdOpen $RmErr $CreateErr $Linked $ValidOK
 //@   requires s != nil && !$Complete && !$FdOpen
 //@   callpre Store).linkHeight: $Complete
